@@ -190,7 +190,9 @@ func c04Gen(r *rand.Rand, n int, tier string) []string {
 	for i := 0; i < n; i++ {
 		clock := int64(100)
 		tick := func() int64 { clock += 2; return clock }
-		nt := func(t string) string { return fmt.Sprintf("%s,-,0,-,%d,0,-,-+%s,-,0,%s,%d,0,-,-", hxs("tombstone"), tick(), hxs("nodeType"), hxs(t), tick()) }
+		nt := func(t string) string {
+			return fmt.Sprintf("%s,-,0,-,%d,0,-,-+%s,-,0,%s,%d,0,-,-", hxs("tombstone"), tick(), hxs("nodeType"), hxs(t), tick())
+		}
 		var ops []string
 		// a chain (deep hash propagation), mirrors, then many batches, some large
 		depth := 2 + r.Intn(8)
